@@ -153,10 +153,11 @@ class XyeEngine(Engine):
             "values": {"seed": rng.randrange(1 << 32)} if compact else self._gvals(rng, n, "val"),
             "variances": {"seed": rng.randrange(1 << 32)} if compact else self._gvals(rng, n, "var"),
             "header": header,
-            "sink": rng.choice(["mem", "mem", "path", "path_str"]),
+            "sink": rng.choice(["mem", "mem", "path", "path_str", "fileobj"]),
             "fname": rng.choice(["t.xye", "d/t.xye", "name with blanks.dat", "x"]),
             "load_coord": rng.choice([None, None, "loaded_coord"]),
             "fresh_process": rng.random() < 0.3,
+            "layout": rng.choice(["plain", "plain", "slice", "strided"]),
             "faults": {"mode": "none"},
         }
         f = rng.random()
@@ -165,6 +166,10 @@ class XyeEngine(Engine):
                 scn["faults"] = {"mode": "enum_writes", "partial": rng.choice([0.0, 0.5])}
             else:
                 scn["faults"] = {"mode": "fsize", "fracs": [rng.random() for _ in range(5)]}
+        if scn["sink"] == "fileobj":
+            # a real text file opened (and closed) by the caller; write errors would surface in the
+            # caller's close(), so this sink kind runs without the fault family
+            scn["faults"] = {"mode": "none"}
         if rng.random() < 0.15:
             scn["kind"] = "refusal"
             scn["refusal"] = rng.choice(REFUSALS)
@@ -200,14 +205,17 @@ class XyeEngine(Engine):
         import scipp as sc
 
         n, dim = scn["n"], scn["dim"]
-        data = sc.array(dims=[dim], values=self._arr(scn["values"], n, "val"),
-                        variances=self._arr(scn["variances"], n, "var"), unit=scn["unit"])
+        from .. import layouts
+
+        how = scn.get("layout", "plain")
+        data = layouts.embed(sc.array(dims=[dim], values=self._arr(scn["values"], n, "val"),
+                                      variances=self._arr(scn["variances"], n, "var"), unit=scn["unit"]), dim, how)
         coords = {}
         for nm, c in scn["coords"].items():
             v = self._coord_arr(c, n)
             if c["edges"]:
                 v = np.concatenate([v, [v[-1] + 1.0]])
-            coords[nm] = sc.array(dims=[dim], values=v, unit=c["unit"])
+            coords[nm] = layouts.embed(sc.array(dims=[dim], values=v, unit=c["unit"]), dim, how)
         da = sc.DataArray(data, coords=coords)
         rf = scn.get("refusal") if scn["kind"] == "refusal" else None
         coord_arg = scn["coord_arg"]
@@ -278,7 +286,11 @@ class XyeEngine(Engine):
             kw["header"] = scn["header"]
         if coord_arg is not None:
             kw["coord"] = coord_arg
-        _, exc = core.capture(xye.save_xye, target, da, **kw)
+        if scn["sink"] == "fileobj":
+            with open(target, "w") as fh:
+                _, exc = core.capture(xye.save_xye, fh, da, **kw)
+        else:
+            _, exc = core.capture(xye.save_xye, target, da, **kw)
         ctx.log(label, "raised:" + exc.name if exc else "returned")
         return exc
 
@@ -289,6 +301,9 @@ class XyeEngine(Engine):
               "coord_unit": scn["coords"][self._selected(scn)]["unit"]}
         if scn["load_coord"]:
             kw["coord"] = scn["load_coord"]
+        if scn["sink"] == "fileobj" and isinstance(source, str):
+            with open(source) as fh:
+                return xye.load_xye(fh, **kw)
         return xye.load_xye(source, **kw)
 
     def _compare(self, scn, ctx, loaded, where):
@@ -579,6 +594,14 @@ class XyeEngine(Engine):
         if s.get("fresh_process"):
             c = copy.deepcopy(s)
             c["fresh_process"] = False
+            yield c
+        if s.get("layout", "plain") != "plain":
+            c = copy.deepcopy(s)
+            c["layout"] = "plain"
+            yield c
+        if s.get("locale"):
+            c = copy.deepcopy(s)
+            del c["locale"]
             yield c
         if s["sink"] != "mem" and s["faults"]["mode"] == "none":
             c = copy.deepcopy(s)
